@@ -834,13 +834,20 @@ class Dump1090:
         extra = self.last_send_extra
         end = time.monotonic() + seconds
         hard = time.monotonic() + T_SYNC
+        last_v, last_change = None, time.monotonic()
         while True:
             now = time.monotonic()
             if self.exited():
                 return 'exited'
             v = self.vol_switches()
+            if v != last_v:
+                last_v, last_change = v, now
             causal = v0 is None or v is None or v >= v0 + 3 + extra
             if now >= end and causal:
+                return 'ok'
+            # a subject without a read timeout sits in one blocking recv(): no context switch for 10 timeout periods.
+            # For it the gap is simply a delay - nothing to wait for (a subject with the 50 ms timeout switches 10 times)
+            if now >= end and now - last_change >= 0.5:
                 return 'ok'
             if now >= hard:
                 return 'timeout'
